@@ -14,7 +14,13 @@ CHECKS = {
         design="4/C14",
     ),
 }
-NOT_APPLICABLE = []
+ALL_IDS = [json.loads(l)["id"] for l in open(os.path.join(ROOT, "properties.jsonl")) if l.strip()]
+NA_REASONS = {}
+NOT_APPLICABLE = [
+    {"property_id": pid, "reason": NA_REASONS.get(pid, "no registered check in this revision: the bounded-exhaustive check designed in DESIGN.md section 4 is not built/validated yet, so nothing is claimed")}
+    for pid in ALL_IDS
+    if pid not in CHECKS
+]
 
 manifest = {
     "version": 1,
